@@ -198,7 +198,9 @@ class GeminiClientProtocol(asyncio.Protocol):
                             break
                 try:
                     body = self.buffer.decode(charset)
-                except UnicodeDecodeError as e:
+                except (UnicodeDecodeError, LookupError, ValueError) as e:
+                    # Undecodable body, or a charset label Python does not know
+                    # (LookupError) or cannot use for text (ValueError)
                     self.response_future.set_exception(e)
                     return
             else:
@@ -432,7 +434,9 @@ class TitanClientProtocol(asyncio.Protocol):
                             break
                 try:
                     body = self.buffer.decode(charset)
-                except UnicodeDecodeError as e:
+                except (UnicodeDecodeError, LookupError, ValueError) as e:
+                    # Undecodable body, or a charset label Python does not know
+                    # (LookupError) or cannot use for text (ValueError)
                     self.response_future.set_exception(e)
                     return
             else:
